@@ -54,13 +54,13 @@ type Monitors struct {
 	idx      int
 	pubs     map[uuid.UUID]*pubRecord // by message id
 	leases   map[uuid.UUID]*leaseRecord
-	acked    map[uuid.UUID]int64     // delivery id -> instant of the successful ack
-	lastSeek map[uuid.UUID]int64     // subscription id -> instant of the last seek
-	reopened map[uuid.UUID]bool      // deliveries re-opened by a seek at some point
-	handouts map[uuid.UUID]int       // delivery id -> number of times handed out (since last re-open)
-	snaps    map[string]*snapRecord  // by snapshot name
-	lastPull map[uuid.UUID]int64     // subscription id -> last pull / creation / ttl update
-	dlDone   map[uuid.UUID]bool      // deliveries already dead-lettered
+	acked    map[uuid.UUID]int64    // delivery id -> instant of the successful ack
+	lastSeek map[uuid.UUID]int64    // subscription id -> instant of the last seek
+	reopened map[uuid.UUID]bool     // deliveries re-opened by a seek at some point
+	handouts map[uuid.UUID]int      // delivery id -> number of times handed out (since last re-open)
+	snaps    map[string]*snapRecord // by snapshot name
+	lastPull map[uuid.UUID]int64    // subscription id -> last pull / creation / ttl update
+	dlDone   map[uuid.UUID]bool     // deliveries already dead-lettered
 	Counts   map[string]int
 }
 
@@ -140,11 +140,11 @@ func attrsEqual(a, b map[string]string) bool {
 
 // reference semantics of the generator's filter strings (independent of the real evaluator)
 var filterSem = map[string]func(a map[string]string) bool{
-	"":                  func(a map[string]string) bool { return true },
-	`attributes:x`:      func(a map[string]string) bool { _, ok := a["x"]; return ok },
-	`attributes.x="1"`:  func(a map[string]string) bool { v, ok := a["x"]; return ok && v == "1" },
-	`NOT attributes:x`:  func(a map[string]string) bool { _, ok := a["x"]; return !ok },
-	`-attributes:"x"`:   func(a map[string]string) bool { _, ok := a["x"]; return !ok },
+	"":                            func(a map[string]string) bool { return true },
+	`attributes:x`:                func(a map[string]string) bool { _, ok := a["x"]; return ok },
+	`attributes.x="1"`:            func(a map[string]string) bool { v, ok := a["x"]; return ok && v == "1" },
+	`NOT attributes:x`:            func(a map[string]string) bool { _, ok := a["x"]; return !ok },
+	`-attributes:"x"`:             func(a map[string]string) bool { _, ok := a["x"]; return !ok },
 	`hasPrefix(attributes.y,"a")`: func(a map[string]string) bool { v, ok := a["y"]; return ok && strings.HasPrefix(v, "a") },
 	`attributes:x OR attributes.y!="b"`: func(a map[string]string) bool {
 		_, okx := a["x"]
